@@ -2138,9 +2138,7 @@ class MultiUserChannelMatrixExtInt(  # pylint: disable=R0904
     @property
     def H_no_ext_int(self) -> np.ndarray:
         """Get method for the H_no_ext_int property."""
-        # Call H property get method of the base class
-        H = MultiUserChannelMatrix.H.fget(self)  # type: ignore
-        return H[:self.K, :self.K]
+        return self.H[:, :self.K]
 
     def corrupt_data(  # type: ignore
             self, data: np.ndarray, ext_int_data: np.ndarray) -> np.ndarray:
